@@ -1,6 +1,9 @@
 // C02: quadrature is exact on the polynomial space the grid declares.
 // args: <grid spec> <mode>   mode 0: weights vs independent exact moments for all polynomials of the declared space (coefficients symbolic)
 //                            mode 1: integrate() == sum_i w_i y_i for all value arrays
+// optional 3rd arg: history of the grid that is queried   0 make | 1 make(depth-1) + updateGrid(depth) without values | 2 make(depth-1), load, updateGrid(depth), load
+//                                                         3 copy of the made grid | 4 binary write/read of the made grid | 5 assignment from the made grid
+#include <sstream>
 #include "tgrid.hpp"
 
 // ---- oracle: exact moments of the documented weight functions (hand-written, independent of the library) ----
@@ -49,8 +52,21 @@ static long double tmoment(WKind kind, int k, long double al, long double be, bo
 }
 
 int main(int argc, char **argv){
-  GridSpec g = parseSpec(argv[1]); int mode = atoi(argv[2]);
-  TasmanianSparseGrid grid; makeGrid(grid, g);
+  GridSpec g = parseSpec(argv[1]); int mode = atoi(argv[2]); int hist = argc > 3 ? atoi(argv[3]) : 0;
+  TasmanianSparseGrid grid;
+  { // the queried grid is reached through the requested history; the declared space and the weights are those of the final grid
+    GridSpec g0 = g; if ((hist == 1 || hist == 2) && g.depth > 0) g0.depth = g.depth - 1;
+    TasmanianSparseGrid base; makeGrid(base, g0);
+    if (hist == 2 && g.outputs > 0){ SymModel pre(g.outputs, 9000, -1.0, 1.0, false); base.loadNeededValues(pre.values(base.getNeededPoints(), g.dims)); }
+    if (hist == 1 || hist == 2){
+      base.updateGrid(g.depth, IO::getDepthTypeString(g.type), g.aw, g.ll);
+      if (hist == 2 && g.outputs > 0 && base.getNumNeeded() > 0){ SymModel pre(g.outputs, 9500, -1.0, 1.0, false); base.loadNeededValues(pre.values(base.getNeededPoints(), g.dims)); }
+    }
+    if (hist == 3) grid.copyGrid(&base);
+    else if (hist == 4){ std::stringstream ss(std::ios::in | std::ios::out | std::ios::binary); base.write(ss, true); grid.read(ss, true); }
+    else if (hist == 5){ grid.makeLocalPolynomialGrid(1, 1, 1); grid = base; }
+    else grid = std::move(base);
+  }
   int d = g.dims, n = grid.getNumPoints();
   std::vector<double> pts = grid.getPoints(), w = grid.getQuadratureWeights();
   fpsym_note("points", n);
